@@ -304,6 +304,13 @@ def r10_7(ctx):
                     ctx.check(R, allowed(f.path), 'verify-caller:' + f.path, '%s calls verify() although it is not the verify command: files written by versions 1 and 2 (no checksum, ChecksumMissing by contract) can no longer be used through it' % f.path, fn=f, at=t.get('span'))
     if n == 0:
         ctx.undecided(R, 'verify-caller', 'no caller of verify() found (the verify command was redesigned)')
+    # ... nor on a length test of its own: the smallest file is 32 bytes for versions 1 and 2, 36 for version 3, and Fst::new knows
+    if ctx.bin is not None:
+        for f in ctx.bin.fn_list:
+            if f.from_expansion or not any((f.callee(t) or '').endswith('Fst::<D>::new') for _, t in f.calls()):
+                continue
+            sized = [t for _, t in f.calls() if (f.callee(t) or '').endswith(('Metadata::len', 'fs::metadata', 'File::metadata'))]
+            ctx.check(R, not sized, 'open-size-gate:' + f.path, '%s looks at the size of the file before handing it to Fst::new: a length gate of its own (36 bytes?) refuses the 32-byte files of versions 1 and 2' % f.path, fn=f, at=sized[0].get('span') if sized else None)
 
 
 def r10_6(ctx):
